@@ -50,7 +50,10 @@ func diffMayPanic(c *Ctx, pk *packages.Package) *goan.MayPanic {
 	m.CheckNil = true
 	m.CheckIface = true
 	m.NilableField = func(owner, field string) bool { return diffNilable[owner][field] }
-	m.NilableResult = map[string]bool{"forItems": true}
+	// schemaFromRef looks the last segment of the $ref up among the definitions of the document: a
+	// valid $ref that is not such a name (a JSON pointer inside a definition, an escaped name, another
+	// document) yields nil — also through the SchemaFromRefFn callbacks handed to CompareProperties
+	m.NilableResult = map[string]bool{"forItems": true, "schemaFromRef": true, "getRefSchemaFromSpec1": true, "getRefSchemaFromSpec2": true, "SchemaFromRefFn": true}
 	info := pk.TypesInfo
 	// array facts: isArray(x) / isArrayType(x.Type) / <local defined from x.Type…> == ArrayType
 	m.ExtraCondFacts = func(mp *goan.MayPanic, e ast.Expr, pol bool) map[string]int {
@@ -168,6 +171,7 @@ func checkC12(c *Ctx) {
 
 	// ---- R2 recursion guard
 	checkRecursionGuard(c, "C12.R2.recursion-guard", pk)
+	checkVisitedOrder(c, "C12.R2.linear-visits", pk, true)
 
 	// ---- R3 relational guard presence
 	r := c.diffRel()
@@ -627,5 +631,135 @@ func checkLocationKey(c *Ctx, rule string, pk *packages.Package) {
 		f := st.Field(i).Name()
 		c.Check(used[f], rule, "diff.schemaLocationKey › reads DifferenceLocation."+f, c.posOf(pk, kd.Pos()), "part of the key",
 			"the visited-set key ignores DifferenceLocation."+f+": a schema referenced at two locations that differ only in "+f+" is compared at one of them only, the one map iteration reaches first — a difference is under-reported and the report changes from run to run")
+	}
+}
+
+// Reviewed map ranges of the diff package whose body reaches compareSchema (and with it the
+// visited set, where the first comparison to arrive under a key is the one that runs): each
+// iteration must work under a root of its own, so that no two iterations compete for a key.
+var visitedOrderReviewed = map[string]string{
+	"SpecAnalyser.analyseRequestParams › range sd.urlMethods2":  "one endpoint per iteration: URL and method are part of the visited key",
+	"SpecAnalyser.analyseRequestParams › range params2":         "parameters of one location of one operation: only a body parameter carries a schema that can hold a $ref, and an operation has at most one",
+	"SpecAnalyser.analyseResponseParams › range sd.urlMethods2": "one endpoint per iteration: URL and method are part of the visited key",
+	"SpecAnalyser.analyseResponseParams › range op2Responses":   "one response code per iteration: the code is part of the visited key",
+}
+
+// checkVisitedOrder: the visited set makes "who arrives first" observable. Every loop whose body
+// reaches compareSchema iterates in a fixed order (a slice, sorted names) or, when it ranges over
+// a map, is reviewed: its iterations use keys of their own.
+func checkVisitedOrder(c *Ctx, rule string, pk *packages.Package, linear bool) {
+	if linear {
+		c.Rule(rule, "no entry of the visited set is ever removed: a (root, $ref) pair is compared once and the work is linear in the number of definitions (held only during its comparison, a $ref is compared again on every path through mutually recursive definitions)", 1)
+	} else {
+		c.Rule(rule, "every range over a map whose body reaches compareSchema gives each iteration a root of its own (reviewed), so the comparison that reaches a key first does not depend on map order", 1)
+	}
+	info := pk.TypesInfo
+	// functions reaching compareSchema (static calls inside the package, or a call through a
+	// CompareSchemaFn value)
+	decls := map[*types.Func]*ast.FuncDecl{}
+	for _, fd := range load.AllFuncs(pk) {
+		if fn, _ := info.Defs[fd.Name].(*types.Func); fn != nil && fd.Body != nil {
+			decls[fn] = fd
+		}
+	}
+	reaches := map[*types.Func]bool{}
+	callsInto := func(n ast.Node) bool {
+		found := false
+		ast.Inspect(n, func(m ast.Node) bool {
+			call, ok := m.(*ast.CallExpr)
+			if !ok || found {
+				return !found
+			}
+			if fn := goan.Callee(info, call); fn != nil {
+				if fn.Name() == "compareSchema" || reaches[fn] {
+					found = true
+				}
+				return true
+			}
+			if tv, ok := info.Types[call.Fun]; ok {
+				if nt, ok := tv.Type.(*types.Named); ok && nt.Obj().Name() == "CompareSchemaFn" {
+					found = true
+				}
+			}
+			return true
+		})
+		return found
+	}
+	for changed := true; changed; {
+		changed = false
+		for fn, fd := range decls {
+			if !reaches[fn] && callsInto(fd.Body) {
+				reaches[fn] = true
+				changed = true
+			}
+		}
+	}
+	// removals from the visited set
+	removed := 0
+	for _, fd := range load.AllFuncs(pk) {
+		if fd.Body == nil || !linear {
+			continue
+		}
+		ast.Inspect(fd.Body, func(n ast.Node) bool {
+			call, ok := n.(*ast.CallExpr)
+			if ok && goan.IsBuiltinCall(info, call, "delete") && len(call.Args) == 2 && goan.LastSel(call.Args[0]) == "schemasCompared" {
+				removed++
+				c.Bad(rule, "diff."+load.FuncName(fd)+" › visited entry removed", c.posOf(pk, call.Pos()),
+					"an entry of the visited set is removed: a definition is then compared again on every path that reaches it, and the comparison of mutually recursive definitions walks every path through them (factorial in their number: it does not finish on a dozen)")
+			}
+			return true
+		})
+	}
+	if removed == 0 && linear {
+		c.Ok(rule, "diff › visited entries are never removed", "", "no delete on schemasCompared")
+	}
+	// entries released by a deferred delete are held only while their comparison runs: nothing is
+	// decided by who arrives first, and map order does not matter (the linear-work rule does)
+	scoped := false
+	for _, fd := range load.AllFuncs(pk) {
+		if fd.Body == nil {
+			continue
+		}
+		ast.Inspect(fd.Body, func(n ast.Node) bool {
+			if ds, ok := n.(*ast.DeferStmt); ok && goan.IsBuiltinCall(info, ds.Call, "delete") && len(ds.Call.Args) == 2 && goan.LastSel(ds.Call.Args[0]) == "schemasCompared" {
+				scoped = true
+			}
+			return true
+		})
+	}
+	if linear {
+		return
+	}
+	if scoped {
+		c.Ok(rule, "diff › visited entries are released when their comparison ends", "", "stack-scoped visited set: no first-comer effect")
+		return
+	}
+	for _, fd := range load.AllFuncs(pk) {
+		if fd.Body == nil {
+			continue
+		}
+		ord := map[string]int{}
+		ast.Inspect(fd.Body, func(n ast.Node) bool {
+			rs, ok := n.(*ast.RangeStmt)
+			if !ok {
+				return true
+			}
+			tv, ok := info.Types[rs.X]
+			if !ok {
+				return true
+			}
+			if _, isMap := tv.Type.Underlying().(*types.Map); !isMap || !callsInto(rs.Body) {
+				return true
+			}
+			key := fmt.Sprintf("%s › range %s", load.FuncName(fd), goan.ExprString(rs.X))
+			ord[key]++
+			if ord[key] > 1 {
+				key = fmt.Sprintf("%s #%d", key, ord[key])
+			}
+			why, ok := visitedOrderReviewed[key]
+			c.Check(ok && why != "", rule, "diff."+key, c.posOf(pk, rs.Pos()), "reviewed: "+why,
+				fmt.Sprintf("%s ranges over the map %s and its body reaches compareSchema: the visited set lets the first iteration to reach a (root, $ref) key run the comparison and skips the others, so which property a shared definition is reported under follows map iteration order — iterate over sorted names, or show that every iteration works under a root of its own", load.FuncName(fd), goan.ExprString(rs.X)))
+			return true
+		})
 	}
 }
